@@ -10,14 +10,16 @@ U = 100                 # one model time unit in ms
 EPS = 1e-6
 REENABLE = 3            # timeout_disable_time in units
 SEARCH_HOLD = 2         # ball_search_hold_time in units
-EOS_LONG = 2            # eos_active_ms_before_repulse in units
+EOS_LONG = 2            # eos_active_ms_before_repulse in units where it is configured (F5, F6)
+EOS_DEFAULT = 5         # ... and where it is left at the config_spec default of 500 ms (F10, F11)
 MAX_HITS = 2            # timeout_max_hits
 BPG = 2                 # balls per game
-KEYS = ('id', 'kind', 'dual', 'eos', 'rep', 'tmo', 'delay', 'btn', 'eosw', 'main', 'hold', 'auto', 'swap')
+assert EOS_DEFAULT * U == 500     # config_spec: flippers: eos_active_ms_before_repulse: single|ms|500
+KEYS = ('id', 'kind', 'dual', 'eos', 'rep', 'eosl', 'tmo', 'delay', 'btn', 'eosw', 'main', 'hold', 'auto', 'swap')
 
 
-def D(i, kind, btn, main, dual=False, eos=False, rep=False, tmo=False, delay=False, ev=False, auto=None, swap=''):
-    return dict(id=i, kind=kind, dual=dual, eos=eos, rep=rep, tmo=tmo, delay=delay, btn=btn, swap=swap,
+def D(i, kind, btn, main, dual=False, eos=False, rep=False, tmo=False, delay=False, ev=False, auto=None, swap='', eosl=None):
+    return dict(id=i, kind=kind, dual=dual, eos=eos, rep=rep, eosl=(eosl or EOS_LONG) if rep else 0, tmo=tmo, delay=delay, btn=btn, swap=swap,
                 auto=(kind != 'kickback') if auto is None else auto,
                 eosw=('s_%s_eos' % i.lower()) if eos else '', main=main,
                 hold=('c_%s_hold' % i.lower()) if dual else '', ev=ev)
@@ -37,6 +39,9 @@ DEVS = [
     D('F8', 'flipper', 's_f7', 'c_f7_main', ev=True, auto=False, swap='F7'),
     # a flipper without activation switch: driven by sw_flip / sw_release events only, never has a rule
     D('F9', 'flipper', '', 'c_f9_main', ev=True),
+    # software repulse with eos_active_ms_before_repulse left at its default (500 ms), one coil / two coils
+    D('F10', 'flipper', 's_f10', 'c_f10_main', eos=True, rep=True, eosl=EOS_DEFAULT),
+    D('F11', 'flipper', 's_f11', 'c_f11_main', dual=True, eos=True, rep=True, ev=True, eosl=EOS_DEFAULT),
     D('A1', 'autofire', 's_a1', 'c_a1'),
     D('A2', 'autofire', 's_a2', 'c_a2', tmo=True, ev=True),
     D('A3', 'autofire', 's_a3', 'c_a3', tmo=True, delay=True),
@@ -45,6 +50,7 @@ DEVS = [
 DEV = {d['id']: d for d in DEVS}
 IDS = [d['id'] for d in DEVS]
 FLIPPERS = [d['id'] for d in DEVS if d['kind'] == 'flipper']
+FCOILS = {c for d in DEVS if d['kind'] == 'flipper' for c in (d['main'], d['hold']) if c}
 
 
 def dev_rec(d):
@@ -88,7 +94,9 @@ def write_machine(scratch):
             if x['eos']:
                 S += ['    eos_switch: %s' % x['eosw'], '    use_eos: true']
             if x['rep']:
-                S += ['    repulse_on_eos_open: true', '    eos_active_ms_before_repulse: %dms' % (EOS_LONG * U)]
+                S.append('    repulse_on_eos_open: true')
+                if x['eosl'] != EOS_DEFAULT:
+                    S.append('    eos_active_ms_before_repulse: %dms' % (x['eosl'] * U))
             # software flips are always possible through events
             S += ['    sw_flip_events: %s_flip' % n, '    sw_release_events: %s_release' % n]
         else:
@@ -192,8 +200,10 @@ class Recorder:
         return sorted([self.swname[s], c._name, k] for (s, c), k in self.p.rules.items())
 
     def take(self):
-        """Calls since the last take (per table key) and the coils left energised by software commands."""
+        """Calls since the last take (per table key), the coils left energised by software commands and the flipper
+        coils software has pulsed since the last take."""
         calls = []
+        self.pulsed = sorted({e[1] for e in self.log if e[0] == 'coil' and e[2] == 'pulse' and e[1] in FCOILS})
         for e in self.log:
             if e[0] == 'set':
                 calls.append(['set', e[1], e[2], e[3], not e[4]])
@@ -238,7 +248,9 @@ MCConfigs == {%s}
 
 
 INVS = ('INVARIANT TypeOK\nINVARIANT RulesExact\nINVARIANT InstallOnce\nINVARIANT HandlersExact\n'
-        'INVARIANT SafeWhenNotInPlay\nINVARIANT NoCoilLeftOn\nINVARIANT NoStrayReenable\n')
+        'INVARIANT SafeWhenNotInPlay\nINVARIANT NoCoilLeftOn\nINVARIANT NoStrayReenable\nINVARIANT NoSoftDriveLeft\n'
+        'INVARIANT NoPulseWhenDisabled\n')
+PROPS = 'PROPERTY ButtonDead\nPROPERTY TimeNeverEnergises\n'
 
 
 def tlc_cfg(spec, maxops, maxtime, maxgames, invs=INVS, deviations=(), extra=''):
@@ -249,14 +261,13 @@ CONSTANTS
   BPG = %d
   ReEnable = %d
   SearchHold = %d
-  EosLong = %d
   MaxHits = %d
   MaxOps = %d
   MaxTime = %d
   MaxGames = %d
   Deviations = {%s}
 %s%sCHECK_DEADLOCK FALSE
-""" % (spec, BPG, REENABLE, SEARCH_HOLD, EOS_LONG, MAX_HITS, maxops, maxtime, maxgames,
+""" % (spec, BPG, REENABLE, SEARCH_HOLD, MAX_HITS, maxops, maxtime, maxgames,
        ', '.join('"%s"' % x for x in deviations), invs, extra)
 
 
@@ -334,6 +345,7 @@ class Run:
         rec['rules'] = self.rec.table()
         rec['calls'] = [dict(op=c[0], sw=c[1], coil=c[2], kind=c[3], ok=c[4]) for c in calls]
         rec['on'] = on
+        rec['pulsed'] = self.rec.pulsed
         rec['mgr'] = sorted(i for i in FLIPPERS if mgr.get(DEV[i]['main'], 0))
         rec['mgrok'] = all(v == 4 for v in mgr.values())
         rec['psu'] = psu
@@ -463,6 +475,7 @@ def exec_schedule(job):
 ACTIVE_SETS = [
     ['F1', 'F2', 'A2'], ['F3', 'F5', 'K1'], ['F4', 'F6', 'A3'], ['F5', 'A2'], ['F5', 'F6'], ['A1', 'A2', 'K1'],
     ['F1', 'A3'], ['F2', 'F5'], ['A2'], ['F5'], ['F7', 'F8'], ['F7', 'F8', 'A2'], ['F9'], ['F9', 'A2'],
+    ['F10'], ['F11', 'A2'], ['F6', 'F10'],
 ]
 
 
@@ -512,25 +525,201 @@ def handmade():
     return out
 
 
+# ---- EOS timelines of a flipper whose EOS repulse is emulated in software ---------------------------------------
+# What a player and a ball do to one flipper: the button is pressed and held, the flipper reaches the end of its stroke
+# (EOS closes), rests there for less / exactly / more than eos_active_ms_before_repulse, is knocked down (EOS opens: the
+# software repulse energises the coil if the closure was long enough), comes up again ... for several cycles; THEN the
+# flipper is disabled (disable request, ball end, end of game, tilt, service) with the button still held or released
+# first, the dead button / EOS switch are worked, and the flipper comes back (enable request, next ball, next game) for
+# another round.  The generator only composes actions of the model; what must be observed is decided by the model.
+REPS = [d['id'] for d in DEVS if d['rep']]
+ENDERS = ('disable', 'drain', 'endgame', 'tilt', 'service')
+CLOSURES = ('bounce', 'short', 'long', 'longer')
+
+
+class Timeline:
+    def __init__(self, d, hs, he, rnd):
+        self.d, self.hs, self.he, self.rnd = d, hs, he, rnd
+        self.L = DEV[d]['eosl']
+        self.btn = self.eos = 0
+        self.ball = 0           # 0: no game
+        self.over = False       # service mode was entered: no further game
+        self.ops = []
+
+    def o(self, op, **kw):
+        self.ops.append(dict(op=op, **kw))
+
+    def b(self, st):
+        if self.btn != st:
+            self.btn = st
+            self.o('btn', d=self.d, st=st)
+
+    def e(self, st):
+        if self.eos != st:
+            self.eos = st
+            self.o('eos', d=self.d, st=st)
+
+    def a(self, n=1):
+        for _ in range(n):
+            self.o('adv')
+
+    def closure(self, kind):
+        """The EOS switch closes and stays closed for ... (the timer is due after exactly L units)."""
+        self.e(1)
+        self.a({'bounce': 0, 'short': self.L - 1, 'long': self.L, 'longer': self.L + self.rnd.choice([1, 2])}[kind])
+
+    def begin_ball(self):
+        self.ball += 1
+        if self.hs:
+            self.o('relstart')
+
+    def start(self):
+        self.o('start')
+        self.ball = 0
+        self.begin_ball()
+
+    def after_ball(self, last=False):
+        if self.ball == BPG or last:
+            self.ball = 0
+        else:
+            self.begin_ball()
+
+    def probe(self):
+        """Work the button and the EOS switch of the (supposedly dead) flipper through a whole repulse cycle."""
+        self.b(1 - self.btn)
+        self.a()
+        self.b(1)
+        self.closure('long')
+        self.e(0)
+        self.a()
+        if self.rnd.random() < 0.5:
+            self.b(0)
+
+    def play(self, press, cycles, rest, release_first):
+        if press == 'before':
+            self.b(0)
+            self.b(1)       # the (new) manager only knows a press it has seen
+        elif press == 'held':
+            self.b(1)       # ... a button held since before the flipper was enabled is not one
+        for k, kind in enumerate(cycles):
+            if kind == 'repress':       # the player lets go and presses again between two knocks
+                self.b(0)
+                self.a(self.rnd.choice([0, 1]))
+                self.b(1)
+                continue
+            self.closure(kind)
+            if press == 'closed' and k == 0:
+                self.b(0)
+                self.b(1)
+            self.e(0)
+            self.a(self.rnd.choice([0, 0, 1]))
+        if rest:
+            self.closure(rest)
+        if release_first:
+            self.b(0)
+
+    def end(self, ender, probe=True):
+        """Disable the flipper; returns True if it is live again afterwards without further request."""
+        pr = self.probe if probe else (lambda: None)
+        if ender == 'disable':
+            self.o('disable', d=self.d)
+            pr()
+            return False
+        if ender in ('drain', 'endgame'):
+            self.o(ender)
+            if self.he:
+                pr()        # ball_will_end has disabled the devices, ball_ending is held
+                self.o('relend')
+            self.after_ball(last=ender == 'endgame')
+            if not self.ball:
+                pr()
+        elif ender == 'tilt':
+            self.o('tilt')
+            pr()
+            self.o('tiltdrain')
+            if self.he:
+                self.o('relend')
+            self.after_ball()
+        elif ender == 'service':
+            self.o('service')
+            self.ball = 0
+            self.over = True
+            pr()
+            self.o('svcexit')
+            self.a()
+        return bool(self.ball)
+
+
+def eos_timeline(rnd, d, hs, he, rounds):
+    """rounds: [(press, cycles, rest, release_first, ender)], played one after the other on flipper d."""
+    t = Timeline(d, hs, he, rnd)
+    live = False
+    for press, cycles, rest, release_first, ender in rounds:
+        if t.over:
+            break
+        if not live:
+            if press == 'held':
+                t.b(1)                  # pressed while the flipper is dead and kept held: the new manager never sees it
+            if not t.ball:
+                t.start()
+            else:
+                t.o('enable', d=d)      # disabled by request with the ball still in play
+        t.play(press, cycles, rest, release_first)
+        live = t.end(ender)
+    if live:
+        t.end('endgame', probe=False)
+    t.a()
+    return dict(active=[d], holdS=hs, holdE=he), t.ops
+
+
+def eos_timelines(rnd, n_random):
+    out = []
+    k = 0
+    # every software-repulse flipper x every way of being disabled x where the EOS switch rests at that moment, after one
+    # repulse, button held: always driven
+    for d in REPS:
+        for ender in ENDERS:
+            for rest in (None, 'short', 'long'):
+                hs, he = bool(k & 1), bool(k & 2)
+                k += 1
+                second = ('held' if k % 3 == 0 else 'before', ['long', rnd.choice(CLOSURES)], rnd.choice(CLOSURES), rnd.random() < 0.5,
+                          rnd.choice(ENDERS))
+                out.append(eos_timeline(rnd, d, hs, he, [('before', ['long'], rest, False, ender), second]))
+    for _ in range(n_random):
+        d = rnd.choice(REPS)
+        rounds = [(rnd.choice(['before', 'before', 'closed', 'held']),
+                   [rnd.choice(CLOSURES + ('repress',)) for _ in range(rnd.choice([1, 2, 2, 3, 4]))],
+                   rnd.choice((None,) + CLOSURES), rnd.random() < 0.3, rnd.choice(ENDERS))
+                  for _ in range(rnd.choice([1, 2, 3]))]
+        out.append(eos_timeline(rnd, d, rnd.random() < 0.3, rnd.random() < 0.3, rounds))
+    return out
+
+
 def mutate(sched, rnd):
-    """Time has to pass for timers to matter: sprinkle extra units of time over a generated schedule."""
+    """Time has to pass for timers to matter: sprinkle extra units of time over a generated schedule; a flipper that has
+    reached the end of its stroke (EOS closed) often rests there for eos_active_ms_before_repulse."""
     out = []
     for a in sched:
         out.append(a)
-        if a['op'] != 'init' and rnd.random() < 0.22:
+        if a['op'] == 'eos' and a['st'] == 1 and rnd.random() < 0.5:
+            out += [{'op': 'adv'}] * DEV[a['d']]['eosl']
+        elif a['op'] != 'init' and rnd.random() < 0.22:
             out += [{'op': 'adv'}] * rnd.choice([1, 1, 2, 3])
     return out
 
 
 MC_RUNS_QUICK = [(['F1', 'A2'], 4, 4, 1), (['F5'], 5, 4, 1), (['F2', 'K1'], 4, 3, 1), (['F6', 'A3'], 4, 2, 1), (['F7', 'F8'], 4, 3, 1), (['F9'], 4, 3, 1)]
 MC_RUNS_THOROUGH = [(['F1', 'A2'], 5, 5, 2), (['F5'], 7, 5, 1), (['F2', 'K1'], 5, 4, 1), (['F6', 'A3'], 5, 3, 1),
-                    (['F3', 'F4'], 5, 3, 1), (['F5', 'A2'], 5, 4, 1), (['A1', 'A3', 'K1'], 5, 4, 1), (['F7', 'F8'], 6, 4, 2)]
-MONITORS = ['RulesExact', 'InstallOnce', 'HandlersExact', 'SafeWhenNotInPlay', 'NoCoilLeftOn', 'NoStrayReenable']
+                    (['F3', 'F4'], 5, 3, 1), (['F5', 'A2'], 5, 4, 1), (['A1', 'A3', 'K1'], 5, 4, 1), (['F7', 'F8'], 6, 4, 2),
+                    (['F10'], 5, 7, 1), (['F11'], 4, 6, 1)]
+MONITORS = ['RulesExact', 'InstallOnce', 'HandlersExact', 'SafeWhenNotInPlay', 'NoCoilLeftOn', 'NoStrayReenable', 'NoSoftDriveLeft',
+            'NoPulseWhenDisabled', 'ButtonDead', 'TimeNeverEnergises']
 DEVIATIONS = {
     'RepulseLeftOn': ('C10:flipper:repulse-coil-left-energised-after-disable',
                       'a flipper coil energised by the software EOS repulse (platform_controller.SoftwareEosRepulseManager) stays '
-                      'energised when the flipper is disabled (ball end, tilt, service, disable event): Flipper.disable() only '
-                      'releases coils when _sw_flipped, and the manager that would switch the coil off on button release is stopped'),
+                      'energised when the flipper is disabled (ball end, tilt, service, disable event) with the button still held: '
+                      'Flipper.disable() only releases coils when _sw_flipped, the manager that would switch the coil off on button '
+                      'release is stopped by clear_hw_rule, and its stop() did not release the coil it had energised'),
     'TiltCarriesOver': ('C10:tilt-during-ball-ending:next-ball-live-while-tilted',
                         'a tilt while the ball_ending queue event is held sets game.tilted, which is not cleared when that ball '
                         'has ended: the next ball starts and all flipper/autofire rules are installed while game.tilted is set '
@@ -546,7 +735,7 @@ def run(ctx):
         with open(wd + '/HwRulesMC.tla', 'w') as f:
             f.write(mc_module(devs, all_cfgs([devs])))
         with open(wd + '/MC.cfg', 'w') as f:
-            f.write(tlc_cfg('Spec', maxops, maxtime, maxgames))
+            f.write(tlc_cfg('Spec', maxops, maxtime, maxgames, extra=PROPS))
         r = tlc.expect_ok(tlc.check(wd, 'HwRulesMC', 'MC.cfg', workers=8, timeout=1500), 'HwRules design check %s' % devs)
         ctx.add_tlc('HwRulesMC %s' % '+'.join(devs), r, {'devices': devs, 'MaxOps': maxops, 'MaxTime': maxtime,
                                                         'MaxGames': maxgames, 'holdS x holdE': 4})
@@ -556,7 +745,7 @@ def run(ctx):
         f.write(mc_module(IDS, all_cfgs(ACTIVE_SETS), name='HwRulesGen'))
     with open(wd + '/Gen.cfg', 'w') as f:
         f.write(tlc_cfg('Spec', 40, 30, 2, invs=''))
-    behs, _ = tlc.simulate(wd, 'HwRulesGen', 'Gen.cfg', num=260 if ctx.quick else 3000, depth=36 if ctx.quick else 50, seed=ctx.seed)
+    behs, _ = tlc.simulate(wd, 'HwRulesGen', 'Gen.cfg', num=280 if ctx.quick else 3000, depth=36 if ctx.quick else 50, seed=ctx.seed)
     rnd = random.Random(ctx.seed)
     jobs = []
     for b in behs:
@@ -566,6 +755,8 @@ def run(ctx):
     for cfg, sched in handmade():
         for via in ('event', 'direct'):
             jobs.append((mdir, cfg, sched, via, 1))
+    for cfg, sched in eos_timelines(random.Random(ctx.seed * 7919 + 10), 50 if ctx.quick else 1200):
+        jobs.append((mdir, cfg, sched, rnd.choice(['event', 'direct', 'mixed']), rnd.randrange(1 << 30)))
     traces = harness.pmap(exec_schedule, jobs, nproc=8, chunk=4, item_timeout=120)
     ctx.log('schedules executed: %d (%d steps, %d cut short after leaving the model)' % (
         len(traces), sum(len(t['ev']) for t in traces), sum(1 for t in traces if t.get('_truncated'))))
@@ -618,6 +809,8 @@ def run(ctx):
         'by calling Tilt._tilted_ball_drain; ball search = the callback each device registered with the playfield',
         'energised = last software command at the platform driver was enable (hardware-rule activations are not software)',
         'the autofire watch window is half a time unit, so that only hits at the same instant count together',
+        'software EOS repulse: virtual platform only (no hardware_eos_repulse); switch changes arrive at unit boundaries, an '
+        'EOS closure lasts a whole number of units (0 .. eosl+2; eosl = 2 units configured / 5 units = the 500 ms default)',
         'service mode entered while a tilt waits for balls, a tilt while the last ball is ending, and games after service '
         'mode are not driven (tilt-mode handlers left behind would block the next game: outside this property)',
     ]
@@ -651,11 +844,16 @@ def classify(fe, pe):
     for i in FLIPPERS:
         if not fe.get('en', {}).get(i, True) and ({DEV[i]['main'], DEV[i]['hold']} & set(fe.get('on', []))):
             return 'flipper-coil-energised-while-disabled'
+    for i in FLIPPERS:
+        if not fe.get('en', {}).get(i, True) and ({DEV[i]['main'], DEV[i]['hold']} & set(fe.get('pulsed', []))):
+            return 'flipper-coil-pulsed-while-disabled'
     return 'model-mismatch'
 
 
 def rules_of(x):
     k4 = 'pulse_on_hit_and_enable_and_release'
+    if not x['btn']:
+        return set()
     if x['kind'] != 'flipper':
         return {(x['btn'], x['main'], 'delayed_pulse_on_hit' if x['delay'] else 'pulse_on_hit')}
     out = set()
